@@ -384,3 +384,24 @@ PROPS['C20'] = {
     'assumptions': ['thread schedules are not explored; data-race freedom from disjoint footprints is an argument, not a solver verdict', 'zlib / liblzma / libc functions on the allow-list are re-entrant on caller-owned state (their documentation)',
                     'std::cerr use in destructor error paths is outside (iostreams are thread-safe at character level)'],
 }
+
+
+# ------------------------------------------------------------------------------------------ block-level composition (writer side)
+BLKW_T = [('ClassType', 'ClassType'), ('QueryResponseSignature', 'QueryResponseSignature'), ('Question', 'Question'), ('RR', 'RR'), ('MalformedMessageData', 'MalformedMessageData'),
+          ('StringItem', 'StringItem'), ('IndexListItem', 'IndexListItem'), ('BlockPreamble', 'BlockPreamble'), ('BlockStatistics', 'BlockStatistics'), ('AddressEventCount', 'AddressEventCount')]
+BLKW_REDIRECT = tuple(['_ZN4CDNS%s5writeERNS_11CdnsEncoderE=stubw_%s@cdns' % (_mangled(t), s) for t, s in BLKW_T] +
+                      ['_ZN4CDNS13QueryResponse5writeERNS_11CdnsEncoderERKNS_9TimestampERKm=stubw_QueryResponse@cdns',
+                       '_ZN4CDNS16MalformedMessage5writeERNS_11CdnsEncoderERKNS_9TimestampERKm=stubw_MalformedMessage@cdns'])
+BLKW_FUNCS = ['CdnsBlock::write_blocktables', 'CdnsBlock::write']
+
+
+def blkw_obl(name, entry, extra_redirect=(), timeout=900):
+    return Obl(name, 'blkw.cpp', 'noctor:' + entry, unwind=24, unwindset={r'9CdnsBlock(17write_blocktables|5write)E': 4, r'put_table': 3}, timeout=timeout, redirect=BLKW_REDIRECT + tuple(extra_redirect), opt='-O1 -fno-inline', mem_gb=16,
+               desc='block-level writer with item writes replaced by their contract: table / array sizes symbolic 0..2, statistics symbolic-present',
+               bounds={'entries per table / item array': '0..2 (symbolic)'}, functions=BLKW_FUNCS)
+
+
+BLKW_OBLS = [blkw_obl('w_blocktables', 'h_w_blocktables'),
+             blkw_obl('w_block', 'h_w_block', extra_redirect=('_ZN4CDNS9CdnsBlock17write_blocktablesERNS_11CdnsEncoderERm=stubw_blocktables@cdns',))]
+for _p in ('C02', 'C10', 'C01'):
+    PROPS[_p]['obligations'] = PROPS[_p]['obligations'] + BLKW_OBLS
